@@ -613,29 +613,39 @@ class PVLParser(object):
                 f'but found: "{t}"'
             )
         set_seq = list()
-        # Initial WSC and/or empty
-        if self.parse_WSC_until(delimiters[1], tokens):
-            return set_seq
+        try:
+            # Initial WSC and/or empty
+            if self.parse_WSC_until(delimiters[1], tokens):
+                return set_seq
 
-        # First item:
-        set_seq.append(self.parse_value(tokens))
-        if self.parse_WSC_until(delimiters[1], tokens):
-            return set_seq
+            # First item:
+            set_seq.append(self.parse_value(tokens))
+            if self.parse_WSC_until(delimiters[1], tokens):
+                return set_seq
 
-        # Remaining items, if any
-        for t in tokens:
-            # print(f'in loop, t: {t}, set_seq: {set_seq}')
-            if t == ",":
-                self.parse_WSC_until(None, tokens)  # consume WSC after ','
-                set_seq.append(self.parse_value(tokens))
-                if self.parse_WSC_until(delimiters[1], tokens):
-                    return set_seq
-            else:
-                tokens.send(t)
-                tokens.throw(
-                    ValueError,
-                    "While parsing, expected a comma (,)" f'but found: "{t}"',
-                )
+            # Remaining items, if any
+            for t in tokens:
+                # print(f'in loop, t: {t}, set_seq: {set_seq}')
+                if t == ",":
+                    self.parse_WSC_until(None, tokens)  # consume WSC after ','
+                    set_seq.append(self.parse_value(tokens))
+                    if self.parse_WSC_until(delimiters[1], tokens):
+                        return set_seq
+                else:
+                    tokens.send(t)
+                    tokens.throw(
+                        ValueError,
+                        "While parsing, expected a comma (,)"
+                        f'but found: "{t}"',
+                    )
+        except StopIteration:
+            pass
+
+        # The tokens ran out before the end delimiter was found.
+        raise ParseError(
+            f'Ran out of tokens before the end delimiter "{delimiters[1]}" '
+            f'that closes "{delimiters[0]}" was found.'
+        )
 
     def parse_set(self, tokens: abc.Generator) -> frozenset:
         """Parses a PVL Set.
@@ -655,9 +665,12 @@ class PVLParser(object):
         ``set`` objects are non-hashable, they cannot be members of a set,
         however, ``frozenset`` objects can.
         """
-        return frozenset(
-            self._parse_set_seq(self.grammar.set_delimiters, tokens)
-        )
+        set_seq = self._parse_set_seq(self.grammar.set_delimiters, tokens)
+        try:
+            return frozenset(set_seq)
+        except TypeError as err:
+            # An unhashable element (e.g. a Sequence) cannot be held.
+            tokens.throw(ValueError, f"Cannot represent this PVL Set: {err} ")
 
     def parse_sequence(self, tokens: abc.Generator) -> list:
         """Parses a PVL Sequence.
@@ -827,7 +840,12 @@ class ODLParser(PVLParser):
         can be represented as a Python ``set`` (unlike PVL Sets,
         which must be represented as a Python ``frozenset`` objects).
         """
-        return set(self._parse_set_seq(self.grammar.set_delimiters, tokens))
+        set_seq = self._parse_set_seq(self.grammar.set_delimiters, tokens)
+        try:
+            return set(set_seq)
+        except TypeError as err:
+            # An unhashable element (e.g. a Sequence) cannot be held.
+            tokens.throw(ValueError, f"Cannot represent this ODL Set: {err} ")
 
     def parse_units(self, value, tokens: abc.Generator) -> str:
         """Extends the parent function, since ODL only allows units
